@@ -1,2 +1,267 @@
-/-! Line driver for C01 (stub; replaced when the model is written). -/
-def main : IO Unit := pure ()
+import MpVerif.C01.ModelGadgets
+import MpVerif.C01.ModelProp
+/-!
+Line driver for C01 (exe `drv_c01`).  One op per line:
+
+  `<gadget> key=value key=value …`
+
+keys: `n` (number of variables before the step), `res`, `ctx`, `args=1,2,3`, `lin=c*v,c*v`,
+`quad=c*v*w,…`, `rhs`, `lb`, `ub`, `k`, `val`, `b`, `kind`, `c`, `eps`, `bigM`,
+`B=v:lb:ub:int;…` (bounds/type of the variables; unspecified variables are free continuous).
+Numbers are `p/q`, `p`, `inf`, `-inf`.  Output: one canonical line per op, `bad-op` if the line cannot
+be interpreted.  No logic here: only parsing, calls of the model functions and printing.
+-/
+open MpVerif.C01
+
+def parseInt? (s : String) : Option Int :=
+  if s.startsWith "-" then (s.drop 1).toNat?.map fun n => - (n : Int)
+  else s.toNat?.map fun n => (n : Int)
+
+def parseRat? (s : String) : Option Rat :=
+  match s.splitOn "/" with
+  | [p] => (parseInt? p).map fun i => (i : Rat)
+  | [p, q] => do
+    let i ← parseInt? p
+    let d ← q.toNat?
+    if d == 0 then none else some ((i : Rat) / (d : Rat))
+  | _ => none
+
+/-- `inf`/`-inf` → none (infinite) -/
+def parseBound? (s : String) : Option (Option Rat) :=
+  if s == "inf" || s == "-inf" then some none else (parseRat? s).map some
+
+def ratStr (q : Rat) : String :=
+  if q.den == 1 then toString q.num else s!"{q.num}/{q.den}"
+
+def boundStr (lower : Bool) : Option Rat → String
+  | none => if lower then "-inf" else "inf"
+  | some q => ratStr q
+
+def parseList {α} (f : String → Option α) (s : String) : Option (List α) :=
+  if s == "" then some [] else (s.splitOn ",").mapM f
+
+def parseTerm? (s : String) : Option (Rat × Var) :=
+  match s.splitOn "*" with
+  | [c, v] => do
+    let c ← parseRat? c
+    let v ← v.toNat?
+    some (c, v)
+  | _ => none
+
+def parseQTerm? (s : String) : Option (Rat × Var × Var) :=
+  match s.splitOn "*" with
+  | [c, v, w] => do
+    let c ← parseRat? c
+    let v ← v.toNat?
+    let w ← w.toNat?
+    some (c, v, w)
+  | _ => none
+
+def parseCtx? : String → Option Ctx
+  | "none" => some .none | "pos" => some .pos | "neg" => some .neg | "mix" => some .mix | _ => none
+
+def parseCmp5? : String → Option Cmp5
+  | "LT" => some .lt | "LE" => some .le | "EQ" => some .eq | "GE" => some .ge | "GT" => some .gt | _ => none
+
+def parseVarInfo? (s : String) : Option (Var × VarInfo) :=
+  match s.splitOn ":" with
+  | [v, l, u, t] => do
+    let v ← v.toNat?
+    let l ← parseBound? l
+    let u ← parseBound? u
+    some (v, { lb := l, ub := u, isInt := t == "1" })
+  | _ => none
+
+def mkBnds (l : List (Var × VarInfo)) : Bnds := fun v =>
+  match l.find? (fun p => p.1 == v) with
+  | some p => p.2
+  | none => {}
+
+def linStr (l : Lin) : String := ",".intercalate (l.map fun (c, v) => s!"{ratStr c}*{v}")
+def quadStr (l : Quad) : String := ",".intercalate (l.map fun (c, v, w) => s!"{ratStr c}*{v}*{w}")
+def varsStr (l : List Var) : String := ",".intercalate (l.map toString)
+
+def funStr : Fun → String
+  | .affine body c => s!"Affine {linStr body} {ratStr c}"
+  | .quadratic lin q c => s!"Quadratic {linStr lin} {quadStr q} {ratStr c}"
+  | .abs a => s!"Abs {a}"
+  | .min as => s!"Min {varsStr as}"
+  | .max as => s!"Max {varsStr as}"
+  | .and as => s!"And {varsStr as}"
+  | .or as => s!"Or {varsStr as}"
+  | .not a => s!"Not {a}"
+  | .impl c t e => s!"Impl {c},{t},{e}"
+  | .ifthen c t e => s!"IfThen {c},{t},{e}"
+  | .condLin k body rhs => s!"CondLin{k.toString} {linStr body} {ratStr rhs}"
+  | .condQuad k lin q rhs => s!"CondQuad{k.toString} {linStr lin} {quadStr q} {ratStr rhs}"
+  | .count as => s!"Count {varsStr as}"
+  | .numberofConst k as => s!"NumberofConst {ratStr k} {varsStr as}"
+  | .numberofVar r as => s!"NumberofVar {r} {varsStr as}"
+  | .alldiff as => s!"AllDiff {varsStr as}"
+  | .div a b => s!"Div {a},{b}"
+  | .pow a p => s!"Pow {a} {p}"
+
+def conStr : Con → String
+  | .linRange body lb ub => s!"LinConRange {linStr body} {boundStr true lb} {boundStr false ub}"
+  | .linRhs k body rhs => s!"LinCon{k.toString} {linStr body} {ratStr rhs}"
+  | .quadRange lin q lb ub => s!"QuadConRange {linStr lin} {quadStr q} {boundStr true lb} {boundStr false ub}"
+  | .quadRhs k lin q rhs => s!"QuadCon{k.toString} {linStr lin} {quadStr q} {ratStr rhs}"
+  | .indLin b bv k body rhs => s!"IndicatorLinCon{k.toString} {b} {bv} {linStr body} {ratStr rhs}"
+  | .sos1 vs ws => s!"SOS1 {varsStr vs} {",".intercalate (ws.map ratStr)}"
+  | .sos2 vs ws => s!"SOS2 {varsStr vs} {",".intercalate (ws.map ratStr)}"
+  | .func res ctx f => s!"F {res} {ctx.toString} {funStr f}"
+
+def viStr (i : VarInfo) : String :=
+  s!"{boundStr true i.lb}:{boundStr false i.ub}:{if i.isInt then 1 else 0}"
+
+def outStr (o : Out) : String :=
+  match o.refusal with
+  | some r => s!"refusal {r.toString}"
+  | none =>
+    if o.unmodelled then "unmodelled" else
+    "ok |V|" ++ ";".intercalate (o.vars.map viStr) ++ "|C|" ++ " ; ".intercalate (o.cons.map conStr)
+      ++ "|N|" ++ ";".intercalate (o.narrow.map fun (v, i) => s!"{v}:{viStr i}")
+
+structure Args where
+  kv : List (String × String)
+
+def Args.get? (a : Args) (k : String) : Option String := (a.kv.find? (·.1 == k)).map (·.2)
+def Args.nat? (a : Args) (k : String) : Option Nat := a.get? k >>= String.toNat?
+def Args.rat? (a : Args) (k : String) : Option Rat := a.get? k >>= parseRat?
+def Args.bound? (a : Args) (k : String) : Option (Option Rat) := a.get? k >>= parseBound?
+def Args.vars? (a : Args) (k : String) : Option (List Var) := a.get? k >>= parseList String.toNat?
+def Args.var1? (a : Args) (k : String) : Option Var :=
+  match a.vars? k with | some [x] => some x | _ => none
+def Args.var2? (a : Args) (k : String) : Option (Var × Var) :=
+  match a.vars? k with | some [x, y] => some (x, y) | _ => none
+def Args.var3? (a : Args) (k : String) : Option (Var × Var × Var) :=
+  match a.vars? k with | some [x, y, z] => some (x, y, z) | _ => none
+def Args.varCons? (a : Args) (k : String) : Option (Var × List Var) :=
+  match a.vars? k with | some (x :: t) => some (x, t) | _ => none
+def Args.lin? (a : Args) (k : String) : Option Lin := a.get? k >>= parseList parseTerm?
+def Args.quad? (a : Args) (k : String) : Option Quad := a.get? k >>= parseList parseQTerm?
+def Args.ctx? (a : Args) : Option Ctx := a.get? "ctx" >>= parseCtx?
+def Args.bnds? (a : Args) : Option Bnds :=
+  match a.get? "B" with
+  | none => some (mkBnds [])
+  | some s => if s == "" then some (mkBnds []) else ((s.splitOn ";").mapM parseVarInfo?).map mkBnds
+def Args.opts? (a : Args) : Option Opts := do
+  let eps ← match a.get? "eps" with | none => some (1 / 10000 : Rat) | some s => parseRat? s
+  let bm ← match a.get? "bigM" with | none => some (-1 : Rat) | some s => parseRat? s
+  some { cmpEps := eps, bigM := bm }
+
+def runOp (g : String) (a : Args) : Option String := do
+  let B ← a.bnds?
+  let o ← a.opts?
+  let n := (a.nat? "n").getD 0
+  match g with
+  | "abs" => do
+    let r ← a.nat? "res"; let x ← a.var1? "args"; let c ← a.ctx?
+    some (outStr (gAbs r x c B n))
+  | "max" => do
+    let r ← a.nat? "res"; let xs ← a.vars? "args"; let c ← a.ctx?
+    some (outStr (gMax r xs c B n))
+  | "min" => do
+    let r ← a.nat? "res"; let xs ← a.vars? "args"; let c ← a.ctx?
+    some (outStr (gMin r xs c B n))
+  | "and" => do
+    let r ← a.nat? "res"; let xs ← a.vars? "args"; let c ← a.ctx?
+    some (outStr (gAnd r xs c B n))
+  | "or" => do
+    let r ← a.nat? "res"; let xs ← a.vars? "args"; let c ← a.ctx?
+    some (outStr (gOr r xs c B n))
+  | "not" => do
+    let r ← a.nat? "res"; let x ← a.var1? "args"
+    some (outStr (gNot r x B n))
+  | "ifthen" => do
+    let r ← a.nat? "res"; let (c, t, e) ← a.var3? "args"
+    some (outStr (gIfThen r c t e B n))
+  | "impl" => do
+    let r ← a.nat? "res"; let (c, t, e) ← a.var3? "args"; let cx ← a.ctx?
+    some (outStr (gImpl r c t e cx B n))
+  | "condlin" => do
+    let r ← a.nat? "res"; let k ← a.get? "kind" >>= parseCmp5?; let body ← a.lin? "lin"
+    let rhs ← a.rat? "rhs"; let cx ← a.ctx?
+    match k with
+    | .eq => some (outStr (gCondEq r body rhs cx B o n))
+    | _ => some (outStr (gCondIneq k r body rhs cx B o n))
+  | "indle" => do
+    let b ← a.nat? "b"; let v ← a.nat? "val"; let body ← a.lin? "lin"; let rhs ← a.rat? "rhs"
+    some (outStr (gIndLE b v body rhs B o))
+  | "indge" => do
+    let b ← a.nat? "b"; let v ← a.nat? "val"; let body ← a.lin? "lin"; let rhs ← a.rat? "rhs"
+    some (outStr (gIndGE b v body rhs B o))
+  | "indeq" => do
+    let b ← a.nat? "b"; let v ← a.nat? "val"; let body ← a.lin? "lin"; let rhs ← a.rat? "rhs"
+    some (outStr (gIndEQ b v body rhs B o))
+  | "count" => do
+    let r ← a.nat? "res"; let xs ← a.vars? "args"
+    some (outStr (gCount r xs B n))
+  | "numberofconst" => do
+    let r ← a.nat? "res"; let xs ← a.vars? "args"; let k ← a.rat? "k"
+    some (outStr (gNumberofConst r k xs B n))
+  | "numberofvar" => do
+    let r ← a.nat? "res"; let (ref, xs) ← a.varCons? "args"
+    some (outStr (gNumberofVar r ref xs B n))
+  | "rangelin" => do
+    let body ← a.lin? "lin"; let lb ← a.bound? "lb"; let ub ← a.bound? "ub"
+    some (outStr (gRangeLin body lb ub n))
+  | "rangequad" => do
+    let body ← a.lin? "lin"; let q ← a.quad? "quad"; let lb ← a.bound? "lb"; let ub ← a.bound? "ub"
+    some (outStr (gRangeQuad body q lb ub n))
+  | "lfc" => do
+    let r ← a.nat? "res"; let body ← a.lin? "lin"; let c ← a.rat? "c"
+    some (outStr (gLFC r body c))
+  | "qfc" => do
+    let r ← a.nat? "res"; let body ← a.lin? "lin"; let q ← a.quad? "quad"; let c ← a.rat? "c"; let cx ← a.ctx?
+    some (outStr (gQFC r body q c cx))
+  | "divconst" => do
+    let r ← a.nat? "res"; let (x, y) ← a.var2? "args"
+    some (outStr (gDivConst r x y B))
+  | "rangectx" => do
+    let lb ← a.bound? "lb"; let ub ← a.bound? "ub"
+    some ("ctx " ++ (rangeCtx lb ub).toString)
+  | "propfun" => do   -- PropagateResult(<functional constraint>&, ..., ctx): contexts handed to the arguments
+    let cx ← a.ctx?
+    let ty ← a.get? "type"
+    let fmt := fun (l : List (Var × Ctx)) => "ctx " ++ " ".intercalate (l.map fun (v, c) => s!"{v}:{c.toString}")
+    match ty with
+    | "Not" => do let x ← a.var1? "args"; some (fmt (propNot cx x))
+    | "And" => do let xs ← a.vars? "args"; some (fmt (propAnd cx xs))
+    | "Or" => do let xs ← a.vars? "args"; some (fmt (propOr cx xs))
+    | "Impl" => do let (c, t, e) ← a.var3? "args"; some (fmt (propImpl cx c t e))
+    | "IfThen" => do let (c, t, e) ← a.var3? "args"; some (fmt (propIfThen B cx c t e))
+    | "Affine" => do let body ← a.lin? "lin"; some (fmt (propLFC cx body))
+    | "CondLin" => do
+      let k ← a.get? "kind" >>= parseCmp5?; let body ← a.lin? "lin"
+      some (fmt (propCondLin k cx body))
+    | "Default" => do let xs ← a.vars? "args"; some (fmt (propDefault xs))
+    | _ => none
+  | "proplin" => do   -- PropagateResult2LinTerms
+    let body ← a.lin? "lin"; let cx ← a.ctx?
+    some ("ctx " ++ " ".intercalate ((propLin cx body).map fun (v, c) => s!"{v}:{c.toString}"))
+  | "propquad" => do  -- PropagateResult2QuadTerms
+    let q ← a.quad? "quad"; let cx ← a.ctx?
+    some ("ctx " ++ " ".intercalate ((propQuad B cx q).map fun (v, c) => s!"{v}:{c.toString}"))
+  | _ => none
+
+def main : IO Unit := do
+  let stdin ← IO.getStdin
+  let stdout ← IO.getStdout
+  repeat
+    let line ← stdin.getLine
+    if line.isEmpty then break
+    let toks := (line.trimAscii.toString.splitOn " ").filter (· != "")
+    match toks with
+    | [] => stdout.putStrLn "bad-op"
+    | g :: rest =>
+      let kv := rest.filterMap fun t =>
+        match t.splitOn "=" with
+        | [k, v] => some (k, v)
+        | _ => none
+      if kv.length != rest.length then stdout.putStrLn "bad-op"
+      else match runOp g ⟨kv⟩ with
+        | some s => stdout.putStrLn s
+        | none => stdout.putStrLn "bad-op"
+    stdout.flush
+  stdout.flush
